@@ -460,9 +460,14 @@ func (s *Sim) schedPick(n int) int {
 }
 
 // settle runs go-upf to quiescence, answering data-plane requests one at a time.
+// quiescences counts the returns of synctest.Wait in settle, over all runs of the process:
+// the spin watchdog of main_test.go (real time, outside the bubble) reads it.
+var quiescences atomic.Int64
+
 func (s *Sim) settle() {
 	for guard := 0; ; guard++ {
 		synctest.Wait()
+		quiescences.Add(1)
 		r := s.kern.takePending(s.schedPick)
 		if r != nil {
 			if err := s.kern.decode(r); err != nil {
